@@ -331,7 +331,8 @@ class Impl:
             try:
                 if kind == 'from':
                     G.add_interactions_from([(I.to(a), I.to(b)) for a, b in l], t=t, e=e)
-                elif F and kind in ('path', 'star', 'cycle'):
+                elif kind in ('path', 'star', 'cycle') and (F or not hasattr(G, 'add_' + kind)):
+                    # DynDiGraph only defines add_path as a method; the module-level helpers serve both classes
                     getattr(D, 'add_' + kind)(G, [I.to(x) for x in l], t)
                 elif kind == 'path':
                     G.add_path([I.to(x) for x in l], t=t)
